@@ -232,6 +232,10 @@ def _explore(pid, tier, seed, nworkers, only, t0):
             new.append(v)
     n_new = sum(n for k, n in total.viol_keys.items() if k not in known_keys)
 
+    if os.environ.get("VERIF_DUMP"):  # maintenance aid (tools/list_findings.py): every violation kept by this run
+        with open(os.environ["VERIF_DUMP"], "w") as f:
+            json.dump([dict(key=v["key"], what=v["what"], known=v["key"] in known_keys) for v in total.violations], f, indent=1, default=repr)
+
     lines = []
     unreproduced = 0
     written = 0
